@@ -173,12 +173,14 @@ class Worker:
     def load(self, module, text):
         return self.job({'op': 'load', 'module': module, 'text': text})
 
-    def run(self, goal, limit=1000, det=False, timeout=None, fp=False):
+    def run(self, goal, limit=1000, det=False, timeout=None, fp=False, only_r=False):
         """Runs a goal through vt:run/2. Returns Result."""
         g = goal.rstrip() + ' .'      # callers pass the goal without its end token
         job = {'op': 'run', 'goal': g, 'limit': limit}
         if det:
             job['pred'] = 'rund'
+        if only_r:
+            job['pred'] = 'runr'
         if fp:
             job['fp'] = True
         rep = self.job(job, timeout=timeout)
@@ -229,7 +231,7 @@ class Result:
                     self.end = ('parse_error', terms.parse_dump(line[2:]))
                 else:
                     self.extra.append(line)
-            except (terms.ParseError, ValueError, IndexError) as e:
+            except (terms.ParseError, ValueError, IndexError, RecursionError) as e:
                 self.bad = (line, str(e))
         if self.end is None:
             self.end = ('garbled', out[-300:])
